@@ -10,7 +10,7 @@ use matchers::{Follow, WalkEntry};
 use std::cell::RefCell;
 use std::error::Error;
 use std::io::{stderr, stdout, Write};
-use std::path::PathBuf;
+use std::path::{Path, PathBuf};
 use std::rc::Rc;
 use std::time::SystemTime;
 use walkdir::WalkDir;
@@ -172,6 +172,7 @@ fn process_dir(
     }
 
     let mut ret = 0;
+    let starting_point: Rc<Path> = Rc::from(Path::new(dir));
 
     // Slightly yucky loop handling here :-(. See docs for
     // WalkDirIterator::skip_current_dir for explanation.
@@ -180,7 +181,9 @@ fn process_dir(
     // using current_dir is a workaround to check leaving directory.
     let mut current_dir: Option<PathBuf> = None;
     while let Some(result) = it.next() {
-        match WalkEntry::from_walkdir(result, config.follow) {
+        match WalkEntry::from_walkdir(result, config.follow)
+            .map(|entry| entry.with_starting_point(starting_point.clone()))
+        {
             Err(err) => {
                 ret = 1;
                 writeln!(&mut stderr(), "Error: {err}").unwrap();
